@@ -669,6 +669,46 @@ func runC16(r *Run) {
 			"the message constructor can return a message that did not pass its own ValidateBasic(): the native route rejects such a message before delivery, the precompile executes it (e.g. a zero-amount delegate stores an empty delegation / unbonding entry)", P.witness(bad)...)
 	}
 	r.Floor("R9", "precompile message constructors", nCtor, 9)
+	r.Rule("R12", "PATH.abi-integers-narrowed-under-guard: the ABI hands a precompile 256-bit integers; wherever a precompile function narrows a *big.Int to a machine word for a native message field (Int64()/Uint64()) the call is reachable only over the passing edge of IsInt64()/IsUint64() on that same value — an unguarded narrowing maps k·2^64 + h to h, so the precompile accepts (and acts on) an argument the native message, which carries the real value, rejects")
+	{
+		nN := 0
+		for _, fn := range P.Funcs {
+			if !strings.Contains(fnPkgPath(fn), "/precompiles/") || strings.Contains(fnPkgPath(fn), "/testutil") || isTestSupport(P, fn) || fn.Synthetic != "" {
+				continue
+			}
+			eachCall(fn, func(ci CallInfo) {
+				if !(ci.Name == "Int64" || ci.Name == "Uint64") || ci.Recv != "Int" || ci.PkgPath != "math/big" {
+					return
+				}
+				recv := stripValue(ci.Instr.Common().Args[0])
+				// only values that arrive from outside (type-asserted ABI arguments, fields of ABI structs)
+				fromABI := false
+				backSlice(recv).Any(func(v ssa.Value) bool {
+					if _, ok := v.(*ssa.TypeAssert); ok {
+						fromABI = true
+					}
+					return fromABI
+				})
+				if !fromABI {
+					return
+				}
+				nN++
+				want := "Is" + ci.Name
+				pass, _ := guardPassEdges(fn, func(cond ssa.Value) (bool, bool) {
+					c, ok := cond.(*ssa.Call)
+					if !ok || callInfo(c).Name != want || len(c.Call.Args) == 0 {
+						return false, false
+					}
+					return true, stripValue(c.Call.Args[0]) == recv
+				})
+				call := ci.Instr
+				w := PathQuery{Fn: fn, Target: func(in ssa.Instruction) bool { return in == ssa.Instruction(call) }, DelEdge: edgeSet(pass)}.Search()
+				r.Check(w == nil && len(pass) > 0, "R12", fmt.Sprintf("%s#%s-narrowing-guarded", fnID(fn), ci.Name), P.Pos(instrPos(ci.Instr)), "reachable only where "+want+"() holds",
+					"an ABI integer is narrowed with "+ci.Name+"() without a preceding "+want+"() guard: values that differ by a multiple of 2^64 are accepted as the same argument, which the native message (carrying the full value) would reject", P.witness(w)...)
+			})
+		}
+		r.Floor("R12", "narrowings of ABI integers in precompiles", nN, 1)
+	}
 	r.Rule("R11", "see C02 R4t (imported, mirror targets): a StateDB balance write made by a handler is a mirror of the native message's bank change only if the account's state object was loaded before that change (the frame's caller, the origin, or an address read through the StateDB before the effect); a 'mirror' for any other address — a withdraw address, a validator account — is applied on top of a balance that already contains the change, so the precompile credits twice what the native message credits")
 	r.Import("R11/C02.", []string{"R4t"}, runC02)
 	// RunSetup
